@@ -132,6 +132,8 @@ def trace_random(rep, pid, quick, tables=("default", "wide", "tight")):
         maxlen = 120 if quick else 400
         inputs = [gens.long_selfies(rng, rng.randint(5, maxlen)) for _ in range(n_inputs // 2)]
         inputs += [gens.alive_selfies(rng, rng.randint(5, maxlen)) for _ in range(n_inputs // 2)]
+        # many fragments, rings reaching back across dots, [nop] everywhere
+        inputs += [gens.alive_selfies(rng, rng.randint(5, 80), p_dot=0.08, p_nop=0.06, p_ring=0.25) for _ in range(n_inputs // 3)]
         if tab == "default":
             inputs += [gens.many_closed_rings(120), gens.alive_selfies(rng, 600 if quick else 2000)]
             inputs += [gens.rings_beyond_99(rng) for _ in range(4 if quick else 40)]
@@ -575,7 +577,8 @@ def check_C16(tier):
 # C07 - any string over the semantically robust alphabet is a valid molecule
 # --------------------------------------------------------------------------
 
-KEYPOOL = ["?", "C", "N+1", "Fe+10", "O-1", "H", "Cl-2", "S", "C+0", "C-01", "Xx", "C+", "+1", "c", "C+1-1", "N1"]
+KEYPOOL = ["?", "C", "N+1", "Fe+10", "O-1", "H", "Cl-2", "S", "C+0", "C-01", "Xx", "C+", "+1", "c", "C+1-1", "N1",
+           "N+1 ", "N+ 1", "Fe+1_0", " C", "O-\t2", "N+1.0", "C+1e1"]
 
 
 def check_C07(tier):
@@ -587,7 +590,7 @@ def check_C07(tier):
                          "over the alphabet are enumerated / traced through the decoder machine; non-trivial = accepted "
                          "table with at least one atom key")
     sf = de.selfies_mod()
-    r, vectors = de.run_table_space(KEYPOOL if not quick else KEYPOOL[:12], [-1, 0, 1, 3, 9], 3 if not quick else 2)
+    r, vectors = de.run_table_space(KEYPOOL if not quick else KEYPOOL[:10] + KEYPOOL[16:21], [-1, 0, 1, 3, 9], 3 if not quick else 2)
     rep.add_tlc(r, "TableSpace")
     if r.violated:
         rep.violation("specification-level: %s" % r.violated, {"errors": r.errors[:2]})
